@@ -2386,9 +2386,9 @@ public:
   //! Adjusts the memory operand offset by a `offset`.
   ASMJIT_INLINE_CONSTEXPR void add_offset(int64_t offset) noexcept {
     if (is_offset_64bit()) {
-      int64_t result = offset + int64_t(uint64_t(_data[kDataMemOffsetLo]) | (uint64_t(_base_id) << 32));
-      _data[kDataMemOffsetLo] = uint32_t(uint64_t(result) & 0xFFFFFFFFu);
-      _base_id                 = uint32_t(uint64_t(result) >> 32);
+      uint64_t result = uint64_t(offset) + (uint64_t(_data[kDataMemOffsetLo]) | (uint64_t(_base_id) << 32));
+      _data[kDataMemOffsetLo] = uint32_t(result & 0xFFFFFFFFu);
+      _base_id                 = uint32_t(result >> 32);
     }
     else {
       _data[kDataMemOffsetLo] += uint32_t(uint64_t(offset) & 0xFFFFFFFFu);
